@@ -81,13 +81,31 @@ fn send_and_lex(f: Flow<(), Prepare>) -> Option<(crate::drv_req::LexedHead, Flow
     Some((lh, rr))
 }
 
-/// Run one redirect chain on the real code, logging one `hop` event per as_new_flow call.
-pub fn run_chain(t: &mut Tracer, orig: &Value, method: &str, same_host: bool, hops: &[Hop], note: &str) {
-    run_chain_opt(t, orig, method, same_host, hops, note, false)
+/// What the caller does around the hops of a chain.
+#[derive(Default, Clone, Copy)]
+pub struct ChainOpt {
+    /// the first request is sent with send_body_despite_method() (a body on a bodiless method)
+    pub despite: bool,
+    /// every redirected request is sent with send_body_despite_method() as well
+    pub despite_hops: bool,
+    /// the caller sets its own cookie / authorization on every redirected request
+    pub readd: bool,
+    /// the server sends an unsolicited "100 Continue" before every 3xx head
+    pub interim: bool,
 }
 
-/// `despite`: the first request is sent with send_body_despite_method() (a body on a bodiless method)
-pub fn run_chain_opt(t: &mut Tracer, orig: &Value, method: &str, same_host: bool, hops: &[Hop], note: &str, despite: bool) {
+const ORIG_AUTH: [&[u8]; 2] = [b"Basic b3JpZzpwdw==", b"Bearer second-line"];
+const ORIG_COOKIE: [&[u8]; 3] = [b"session=orig", b"second=line", b"third=line"];
+const NEW_AUTH: &[u8] = b"Bearer set-on-the-new-flow";
+const NEW_COOKIE: &[u8] = b"jar=set-on-the-new-flow";
+
+/// Run one redirect chain on the real code, logging one `hop` event per as_new_flow call.
+pub fn run_chain(t: &mut Tracer, orig: &Value, method: &str, same_host: bool, hops: &[Hop], note: &str) {
+    run_chain_opt(t, orig, method, same_host, hops, note, ChainOpt::default())
+}
+
+pub fn run_chain_opt(t: &mut Tracer, orig: &Value, method: &str, same_host: bool, hops: &[Hop], note: &str, opt: ChainOpt) {
+    let despite = opt.despite;
     let body_m = matches!(method, "POST" | "PUT" | "PATCH");
     let mut b = Request::builder().method(Method::from_bytes(method.as_bytes()).unwrap()).uri(uri_text(orig));
     b = b.header("authorization", "Basic b3JpZzpwdw==").header("cookie", "session=orig").header("x-keep", "1");
@@ -146,6 +164,28 @@ pub fn run_chain_opt(t: &mut Tracer, orig: &Value, method: &str, same_host: bool
             head.extend(b"Content-Length: 5\r\nSet-Cookie: a=b\r\n\r\n");
         } else {
             head.extend(b"Content-Length: 0\r\n\r\n");
+        }
+        if opt.interim {
+            // an unsolicited interim response: handed to the caller (or skipped), the exchange goes on
+            t.class("hop:after-interim-100");
+            // (a 100 still owed to an Expect handshake is skipped silently: send another one then)
+            let mut surfaced = false;
+            for _ in 0..2 {
+                match guarded(|| rr.try_response(b"HTTP/1.1 100 Continue\r\n\r\n")) {
+                    Some(Ok((25, Some(_)))) => {
+                        surfaced = true;
+                        break;
+                    }
+                    Some(Ok((25, None))) => {}
+                    _ => {
+                        t.ev(json!({"ev":"panic","during":"try_response of an interim 100 before a redirect"}));
+                        return;
+                    }
+                }
+            }
+            if surfaced {
+                t.class("hop:interim-100-surfaced");
+            }
         }
         match guarded(|| rr.try_response(&head)) {
             Some(Ok((_, Some(_)))) => {}
@@ -211,8 +251,25 @@ pub fn run_chain_opt(t: &mut Tracer, orig: &Value, method: &str, same_host: bool
                 t.ev(e);
                 return;
             }
-            Some(Ok(Some(nf))) => {
+            Some(Ok(Some(mut nf))) => {
                 e["res"] = json!("flow");
+                let mut set_auth = false;
+                if opt.despite_hops && !matches!(nf.method().as_str(), "POST" | "PUT" | "PATCH") {
+                    nf.send_body_despite_method();
+                    t.class("hop:despite-on-redirected");
+                }
+                if opt.readd {
+                    // the caller's own credentials for the new request: these are not "inherited"
+                    let ok = nf.header("cookie", ureq_proto::http::HeaderValue::from_bytes(NEW_COOKIE).unwrap()).is_ok()
+                        && (hi % 2 == 1 || nf.header("authorization", ureq_proto::http::HeaderValue::from_bytes(NEW_AUTH).unwrap()).is_ok());
+                    set_auth = hi % 2 == 0;
+                    if !ok {
+                        t.ev(json!({"ev":"panic","during":"setting a header on the redirected flow"}));
+                        return;
+                    }
+                    t.class("hop:caller-sets-credentials");
+                }
+                let _ = set_auth;
                 let newuri = project_uri(nf.uri());
                 e["uri"] = newuri.clone();
                 e["newmethod"] = json!(nf.method().as_str());
@@ -228,8 +285,15 @@ pub fn run_chain_opt(t: &mut Tracer, orig: &Value, method: &str, same_host: bool
                 e["target"] = json!(lh.target);
                 let hosts: Vec<&(String, Vec<u8>)> = lh.fields.iter().filter(|f| f.0 == "host").collect();
                 e["hostline"] = json!(if hosts.len() == 1 { String::from_utf8_lossy(&hosts[0].1).to_string() } else { format!("<{} host fields>", hosts.len()) });
-                e["auth"] = json!(lh.fields.iter().any(|f| f.0 == "authorization"));
-                e["cookie"] = json!(lh.fields.iter().any(|f| f.0 == "cookie"));
+                // inherited = on the wire without having been set by the caller on this flow
+                let mine = |f: &&(String, Vec<u8>)| opt.readd && (f.1 == NEW_AUTH || f.1 == NEW_COOKIE);
+                e["auth"] = json!(lh.fields.iter().filter(|f| !mine(f)).any(|f| f.0 == "authorization"));
+                e["cookie"] = json!(lh.fields.iter().filter(|f| !mine(f)).any(|f| f.0 == "cookie"));
+                if opt.readd {
+                    // what the caller set must be there (C16 checks order and multiplicity)
+                    e["mine_sent"] = json!(lh.fields.iter().any(|f| f.0 == "cookie" && f.1 == NEW_COOKIE));
+                }
+                debug_assert!(ORIG_AUTH.len() + ORIG_COOKIE.len() == 5);
                 e["clen"] = json!(lh.fields.iter().any(|f| f.0 == "content-length"));
                 if e["auth"] == json!(true) {
                     t.class("hop:auth-kept");
@@ -253,15 +317,15 @@ fn bad_ref() -> Value {
 
 fn random_ref(rng: &mut StdRng) -> Value {
     let schemes = ["http", "https"];
-    let hosts = ["a.test", "b.test", "sub.a.test"];
+    let hosts = ["a.test", "b.test", "sub.a.test", "127.0.0.1", "10.1.2.3", "[::1]"];
     let ports = [0u64, 0, 8080, 80, 443];
     let qs = ["-", "-", "k=1", "a=b&c=d"];
     let seg_pool = ["p", "q", ".", "..", "long-segment_1", "", "x"];
     let nseg = rng.gen_range(0..5);
     let mut segs: Vec<&str> = (0..nseg).map(|_| seg_pool[rng.gen_range(0..seg_pool.len())]).collect();
     match rng.gen_range(0..10) {
-        0 | 1 | 2 => mk_ref("abs", schemes[rng.gen_range(0..2)], hosts[rng.gen_range(0..3)], ports[rng.gen_range(0..5)], &segs, qs[rng.gen_range(0..4)]),
-        3 => mk_ref("net", "", hosts[rng.gen_range(0..3)], ports[rng.gen_range(0..5)], &segs, qs[rng.gen_range(0..4)]),
+        0 | 1 | 2 => mk_ref("abs", schemes[rng.gen_range(0..2)], hosts[rng.gen_range(0..6)], ports[rng.gen_range(0..5)], &segs, qs[rng.gen_range(0..4)]),
+        3 => mk_ref("net", "", hosts[rng.gen_range(0..6)], ports[rng.gen_range(0..5)], &segs, qs[rng.gen_range(0..4)]),
         4 | 5 => {
             // a path-absolute reference must not begin with "//" (that is a network-path reference)
             while segs.len() > 1 && segs[0].is_empty() {
@@ -322,7 +386,7 @@ pub fn c13_14(o: &Opts, t: &mut Tracer) -> Value {
     let nscripts = replay_redirect_scripts(o, t);
     let mut rng = rng_for(o.seed, 0xC13);
     let schemes = ["http", "https"];
-    let hosts = ["a.test", "b.test"];
+    let hosts = ["a.test", "b.test", "127.0.0.1", "[::1]"];
     let methods = ["GET", "HEAD", "POST", "PUT", "DELETE", "OPTIONS", "PATCH", "TRACE", "CONNECT"];
     let statuses = [300u16, 301, 302, 303, 305, 307, 308, 399];
     // seeded random chains of 1..4 hops, ending in dead ends (bad Location, not followed) now and then
@@ -331,7 +395,7 @@ pub fn c13_14(o: &Opts, t: &mut Tracer) -> Value {
         let oport: u64 = [0u64, 8080, 0][rng.gen_range(0..3)];
         let osegs: Vec<&str> = [vec![""], vec!["x", "y"], vec!["x", "y", ""], vec!["deep", "er", "path", "file.html"]][rng.gen_range(0..4)].clone();
         let oq: &str = ["-", "q=1"][rng.gen_range(0..2)];
-        let orig = json!({"scheme": schemes[rng.gen_range(0..2)], "host": hosts[rng.gen_range(0..2)], "port": oport, "segs": osegs, "q": oq});
+        let orig = json!({"scheme": schemes[rng.gen_range(0..2)], "host": hosts[[0usize, 1, 0, 1, 0, 2, 3][rng.gen_range(0..7)]], "port": oport, "segs": osegs, "q": oq});
         let nh = rng.gen_range(1..5);
         let mut hops = vec![];
         for k in 0..nh {
@@ -348,8 +412,8 @@ pub fn c13_14(o: &Opts, t: &mut Tracer) -> Value {
         }
         let m = methods[rng.gen_range(0..9)];
         t.sig(format!("rnd/{}/{}/{}", m, nh, i % 9 == 0));
-        let despite = rng.gen_bool(0.15);
-        run_chain_opt(t, &orig, m, rng.gen_bool(0.6), &hops, "random-chain", despite);
+        let opt = ChainOpt { despite: rng.gen_bool(0.15), despite_hops: rng.gen_bool(0.15), readd: rng.gen_bool(0.25), interim: rng.gen_bool(0.15) };
+        run_chain_opt(t, &orig, m, rng.gen_bool(0.6), &hops, "random-chain", opt);
     }
     // directed: leave and return, scheme downgrade on the same host, same host different port
     let a = |scheme: &str, host: &str, port: u64| json!({"scheme": scheme, "host": host, "port": port, "segs": ["x", "y"], "q": "-"});
@@ -363,6 +427,14 @@ pub fn c13_14(o: &Opts, t: &mut Tracer) -> Value {
             run_chain(t, &a("https", "a.test", 0), "GET", same, &[h(abs("http", "a.test", 0)), h(rel.clone()), h(abs("https", "a.test", 0))], "downgrade-same-host");
             run_chain(t, &a("http", "a.test", 0), "GET", same, &[h(abs("https", "a.test", 0)), h(abs("http", "a.test", 8080)), h(absp.clone())], "upgrade-then-port");
             run_chain(t, &a("http", "a.test", 8080), "HEAD", same, &[h(mk_ref("net", "", "b.test", 0, &["m"], "-")), h(mk_ref("net", "", "a.test", 8080, &[], "-")), h(mk_ref("query", "", "", 0, &[], "z=9"))], "scheme-relative");
+            // address literals are hosts like any other: two different addresses are two different hosts
+            run_chain(t, &a("https", "127.0.0.1", 0), "GET", same, &[h(abs("https", "10.1.2.3", 0)), h(absp.clone()), h(abs("https", "127.0.0.1", 0))], "ip-literal-leave-and-return");
+            run_chain(t, &a("http", "[::1]", 8080), "GET", same, &[h(abs("http", "[::2]", 8080)), h(abs("http", "127.0.0.1", 8080)), h(abs("http", "[::1]", 8080))], "ipv6-literal-leave-and-return");
+            for opt in [ChainOpt { readd: true, ..Default::default() }, ChainOpt { despite_hops: true, ..Default::default() }, ChainOpt { interim: true, ..Default::default() },
+                        ChainOpt { readd: true, despite_hops: true, interim: true, despite: true }] {
+                run_chain_opt(t, &a("https", "a.test", 0), "GET", same, &[h(absp.clone()), h(abs("https", "b.test", 0)), h(rel.clone()), h(abs("https", "a.test", 0))], "caller-options", opt);
+                run_chain_opt(t, &a("http", "a.test", 0), "POST", same, &[h(absp.clone()), h(rel.clone())], "caller-options", opt);
+            }
             t.sig(format!("directed/{}/{}", same, st));
         }
     }
@@ -379,7 +451,8 @@ pub fn c15(o: &Opts, t: &mut Tracer) -> Value {
                 for with_body in [false, true] {
                     let r = if (st as usize + n) % 3 == 0 { mk_ref("abs", "https", "b.test", 0, &["t"], "-") } else { mk_ref("abspath", "", "", 0, &["next"], "-") };
                     let despite = !matches!(m, "POST" | "PUT" | "PATCH") && (st as usize + n) % 4 == 1;
-                    run_chain_opt(t, &orig, m, same, &[Hop { status: st, r, bad: None, frag: false, decoys: 0, with_body }], "c15", despite);
+                    let opt = ChainOpt { despite, despite_hops: (st as usize + n) % 5 == 2, readd: (st as usize + n) % 7 == 3, interim: (st as usize + n / 4) % 3 == 1 };
+                    run_chain_opt(t, &orig, m, same, &[Hop { status: st, r, bad: None, frag: false, decoys: 0, with_body }], "c15", opt);
                     n += 1;
                 }
             }
